@@ -41,8 +41,8 @@ def run(c):
         "statement captures are compared with the model only (the documentation speaks about expressions)",
     ]
 
-    build_own_theories(c, "Base/Outcome.v", "Filters/FilterIR.v", "Filters/FilterAlgebra.v", "Filters/Predicates.v", "Filters/FilterEval.v", "Filters/ExprFacts.v", "Filters/FileFacts.v", "Filters/ValueSources.v")
-    c.require_theories("Base/Outcome.v", "Filters/FilterIR.v", "Filters/FilterAlgebra.v", "Filters/Predicates.v", "Filters/FilterEval.v", "Filters/ExprFacts.v", "Filters/FileFacts.v", "Filters/ValueSources.v")
+    build_own_theories(c, "Base/Outcome.v", "Filters/FilterIR.v", "Filters/FilterAlgebra.v", "Filters/Predicates.v", "Filters/FilterEval.v", "Filters/ExprFacts.v", "Filters/FileFacts.v", "Filters/ValueSources.v", "Filters/LoaderState.v")
+    c.require_theories("Base/Outcome.v", "Filters/FilterIR.v", "Filters/FilterAlgebra.v", "Filters/Predicates.v", "Filters/FilterEval.v", "Filters/ExprFacts.v", "Filters/FileFacts.v", "Filters/ValueSources.v", "Filters/LoaderState.v")
 
     # ---- P
     gen_ok = False
